@@ -2,6 +2,7 @@ package props
 
 import (
 	"fmt"
+	"math"
 	"reflect"
 	"strings"
 
@@ -201,6 +202,32 @@ func runC17(c *core.Ctx) {
 		}
 		for _, f := range []float32{0, 1, 999, 1000, 1e3, 1e6, 1e9, 1e12, 1e15, 1e18, 9.99e20, 1e21, 1.1e21, 2.4e24, 3.4e38, float32(0x3FFFF) * (1 << 63)} {
 			vals = append(vals, &rtcp.ReceiverEstimatedMaximumBitrate{Bitrate: f})
+		}
+		// the 64 float32 values on either side of every power of ten from 1e-3 to 1e38 (where a
+		// formatter that scales by thousands changes unit or rounds up to the next one), and of
+		// every power of two from 2^-10 to 2^127
+		near := func(x float64) {
+			f := float32(x)
+			if math.IsInf(float64(f), 0) {
+				f = math.MaxFloat32
+			}
+			bits := math.Float32bits(f)
+			for d := -64; d <= 64; d++ {
+				bb := uint32(int64(bits) + int64(d))
+				if bb >= 0x7F800000 {
+					continue
+				}
+				vals = append(vals, &rtcp.ReceiverEstimatedMaximumBitrate{Bitrate: math.Float32frombits(bb)})
+			}
+		}
+		for e := -3; e <= 38; e++ {
+			near(math.Pow(10, float64(e)))
+			near(0.999995 * math.Pow(10, float64(e)))
+			near(0.99995 * math.Pow(10, float64(e)))
+			near(0.9995 * math.Pow(10, float64(e)))
+		}
+		for e := -10; e <= 127; e++ {
+			near(math.Ldexp(1, e))
 		}
 		for _, p := range vals {
 			cs.Distinct(valueDigest(mon.TypeName(p), p))
